@@ -172,6 +172,13 @@ Section Built.
       apply page_box_perm. apply sorted_perm.
   Qed.
 
+  Lemma BT_index_fuel : forall v fuel, v < tree_len BT -> tree_len BT <= fuel ->
+    start_index_f BT fuel v = start_index BT v /\ stop_index_f BT fuel v = stop_index BT v.
+  Proof.
+    apply (index_fuel d (b_ps ps0) (b_td rows ps0) (b_np rows ps0) keys (b_sb rows) BT);
+      auto using Hps', Hnp', Hcover', sb_normal, BT_tree, BT_ps.
+  Qed.
+
   (* ---- from here on the rows are boxes: min <= max ---- *)
   Hypothesis Hwf : Forall (wf_box d) rows.
 
@@ -243,6 +250,22 @@ Section Built.
                           Hd Hps' Hnp' Hcover' sb_normal BT_tree BT_keys BT_bounds BT_ps q Hq
                           (fun r => negb (isnan (col 0 r))) (fun r => negb (row_outside d q r))
                           (fun r => overlapsb d r q)).
+    - exact outside_no_overlap.
+    - intros K HK Hin k Hk. rewrite notnan_finite by (now apply HK).
+      destruct (row_finite (b_sb rows k)) eqn:Hf.
+      + symmetry. apply (covered_overlaps d q Hd _ (sb_wf k (HK k Hk))).
+        now apply (inside_covered K HK Hin k Hk).
+      + symmetry. now apply not_finite_no_overlap.
+    - intros k Hk. apply (row_outside_overlaps d q Hd). now apply sb_normal.
+  Qed.
+
+  Lemma BT_ranges_fuel : forall fuel, tree_len BT <= fuel ->
+    ranges_loop BT fuel q [0] [] [] = maybe_intersects_ranges BT q.
+  Proof.
+    apply (ranges_loop_fuel d (b_ps ps0) (b_td rows ps0) (b_np rows ps0) keys (b_sb rows) BT
+                            Hd Hps' Hnp' Hcover' sb_normal BT_tree BT_keys BT_bounds BT_ps q Hq
+                            (fun r => negb (isnan (col 0 r))) (fun r => negb (row_outside d q r))
+                            (fun r => overlapsb d r q)).
     - exact outside_no_overlap.
     - intros K HK Hin k Hk. rewrite notnan_finite by (now apply HK).
       destruct (row_finite (b_sb rows k)) eqn:Hf.
@@ -886,3 +909,26 @@ Proof.
       rewrite (E rows), (E (finite_rows rows)). rewrite !finite_rows_norm.
       unfold finite_rows. now rewrite (filter_filter _ row_finite row_finite) by auto.
 Qed.
+
+
+(* ============================================ the fuel of the loops suffices *)
+Theorem C03_fuel_suffices : forall d rows keys ps q,
+  1 <= d -> Forall (wf_box d) rows -> Permutation keys (seq 0 (length rows)) ->
+  length q = 2 * d -> rows <> [] ->
+  let T := build d rows keys ps in
+  (forall v fuel, v < tree_len T -> tree_len T <= fuel ->
+     start_index_f T fuel v = start_index T v /\ stop_index_f T fuel v = stop_index T v) /\
+  (forall fuel, tree_len T <= fuel ->
+     ranges_loop T fuel q [0] [] [] = maybe_intersects_ranges T q).
+Proof.
+  intros d rows keys ps q Hd Hwf Hperm Hq Hne T. subst T.
+  change (build d rows keys ps) with (BT d rows keys ps).
+  pose proof (wf_len d rows Hwf) as Hlen.
+  split.
+  - apply (BT_index_fuel d rows keys ps Hd Hlen Hperm Hne).
+  - apply (BT_ranges_fuel d rows keys ps Hd Hlen Hperm Hne Hwf q Hq).
+Qed.
+
+(* the names the comments of Model/Rtree.v refer to *)
+Definition start_index_fuel_enough := C03_fuel_suffices.
+Definition ranges_loop_fuel := C03_fuel_suffices.
